@@ -1,5 +1,9 @@
 //! C18 — RTP latching. Drives the real `IceConn::receive` + latch API, writes op lines for the
 //! Lean model (`RtcModel.Latch`) and evaluates the property's own oracles on the implementation.
+//!
+//! Streams: `latch` (one bare `IceConn`, full state incl. the hidden probation table compared
+//! after every op) and `pc` (a real `PeerConnection` in RTP mode: SDP-driven retargets, pair
+//! monitors, STUN-driven pair rewrite and UDP packets through the real sockets; see `pc_stream`).
 use crate::{Args, Rng, Run, hex};
 use async_trait::async_trait;
 use bytes::Bytes;
@@ -8,7 +12,7 @@ use rustrtc::transports::PacketReceiver;
 use rustrtc::transports::ice::IceSocketWrapper;
 use rustrtc::transports::ice::conn::IceConn;
 use rustrtc::verif_hooks::ice_conn as hook;
-use std::net::{IpAddr, Ipv4Addr, SocketAddr};
+use std::net::{IpAddr, Ipv4Addr, Ipv6Addr, SocketAddr};
 use std::sync::Arc;
 use std::sync::atomic::Ordering;
 use tokio::sync::watch;
@@ -25,12 +29,25 @@ pub enum Op {
     RtcpAddr(Option<(u8, u16)>),
 }
 
+/// Address code → socket address. 0 = 0.0.0.0, 1..99 = 10.0.0.x, 100..199 = the IPv4-mapped IPv6
+/// form of 10.0.0.(x-100), 200.. = fd00::(x-200). Distinct codes are distinct `SocketAddr`s, which is
+/// all the model (addresses are opaque `(ip, port)` pairs) relies on.
 fn sa(ip: u8, port: u16) -> SocketAddr {
-    if ip == 0 { SocketAddr::new(IpAddr::V4(Ipv4Addr::new(0, 0, 0, 0)), port) }
-    else { SocketAddr::new(IpAddr::V4(Ipv4Addr::new(10, 0, 0, ip)), port) }
+    match ip {
+        0 => SocketAddr::new(IpAddr::V4(Ipv4Addr::new(0, 0, 0, 0)), port),
+        1..=99 => SocketAddr::new(IpAddr::V4(Ipv4Addr::new(10, 0, 0, ip)), port),
+        100..=199 => SocketAddr::new(IpAddr::V6(Ipv4Addr::new(10, 0, 0, ip - 100).to_ipv6_mapped()), port),
+        _ => SocketAddr::new(IpAddr::V6(Ipv6Addr::new(0xfd00, 0, 0, 0, 0, 0, 0, (ip - 200) as u16)), port),
+    }
 }
 fn ip_of(a: SocketAddr) -> (u8, u16) {
-    match a.ip() { IpAddr::V4(v) => (v.octets()[3], a.port()), _ => (255, a.port()) }
+    match a.ip() {
+        IpAddr::V4(v) => (v.octets()[3], a.port()),
+        IpAddr::V6(v) => match v.to_ipv4_mapped() {
+            Some(m) => (100 + m.octets()[3], a.port()),
+            None => (200 + v.segments()[7] as u8, a.port()),
+        },
+    }
 }
 
 pub fn op_text(op: &Op) -> String {
@@ -53,17 +70,56 @@ impl PacketReceiver for Rec {
     async fn receive(&self, _p: Bytes, _a: SocketAddr, _m: &mut Vec<u8>) { self.0.lock().push(self.1); }
 }
 
+/// One candidate row of the hidden probation table.
 #[derive(Clone, Debug, PartialEq)]
-pub struct Obs { remote: (u8, u16), rtcp: Option<(u8, u16)>, latched: bool, rtcpl: bool, fwd: &'static str }
-impl Obs {
-    fn text(&self) -> String {
-        format!("{}:{}/{}/{}/{}/{}", self.remote.0, self.remote.1,
-            match self.rtcp { None => "-".to_string(), Some((i, p)) => format!("{i}:{p}") },
-            self.latched as u8, self.rtcpl as u8, self.fwd)
+pub struct CandObs { addr: (u8, u16), first_seq: u16, last_seq: u16, first_ts: u32, count: u8, consec: u8, marker: bool }
+#[derive(Clone, Debug, PartialEq)]
+pub struct ProbObs { total: u8, max: u8, cands: Vec<CandObs> }
+
+#[derive(Clone, Debug, PartialEq)]
+pub struct Obs {
+    remote: (u8, u16), rtcp: Option<(u8, u16)>, latched: bool, rtcpl: bool, fwd: &'static str,
+    on: bool, exp: u32, maxp: u8, prob: Option<ProbObs>,
+}
+fn prob_text(p: &Option<ProbObs>) -> String {
+    match p {
+        None => "-".into(),
+        Some(p) => format!("T{}M{}[{}]", p.total, p.max, p.cands.iter().map(|c| format!("{}:{},{},{},{},{},{},{}",
+            c.addr.0, c.addr.1, c.first_seq, c.last_seq, c.first_ts, c.count, c.consec, c.marker as u8)).collect::<Vec<_>>().join(";")),
     }
+}
+impl Obs {
+    /// `prev` = probation text of the previous step; an unchanged table is printed as `=` (keeps
+    /// the lines of 300-op sequences short; the Lean driver compresses the same way).
+    fn text(&self, prev: Option<&str>) -> (String, String) {
+        let pt = prob_text(&self.prob);
+        let shown = if prev == Some(pt.as_str()) { "=".to_string() } else { pt.clone() };
+        (format!("{}:{}/{}/{}/{}/{}/{}/{}/{}/{}", self.remote.0, self.remote.1,
+            match self.rtcp { None => "-".to_string(), Some((i, p)) => format!("{i}:{p}") },
+            self.latched as u8, self.rtcpl as u8, self.fwd, self.on as u8, self.exp, self.maxp, shown), pt)
+    }
+}
+pub fn obs_line(obs: &[Obs]) -> String {
+    let mut prev: Option<String> = None;
+    let mut out = vec![];
+    for o in obs { let (t, pt) = o.text(prev.as_deref()); out.push(t); prev = Some(pt); }
+    out.join(" ")
 }
 
 pub struct Case { pub init: (u8, u16), pub maxp: u8, pub tcp: bool, pub ops: Vec<Op> }
+
+fn observe(conn: &IceConn, fwd: &'static str) -> Obs {
+    let (on, exp, maxp, prob) = conn.verif_latch_state();
+    Obs {
+        remote: ip_of(*conn.remote_addr.read()),
+        rtcp: conn.remote_rtcp_addr.read().map(ip_of),
+        latched: conn.rtp_latched.load(Ordering::Relaxed),
+        rtcpl: conn.rtcp_latched.load(Ordering::Relaxed),
+        fwd, on, exp, maxp,
+        prob: prob.map(|(total, max, cs)| ProbObs { total, max, cands: cs.into_iter().map(|c| CandObs {
+            addr: ip_of(c.0), first_seq: c.1, last_seq: c.2, first_ts: c.3, count: c.4, consec: c.5, marker: c.6 }).collect() }),
+    }
+}
 
 /// Execute a case on the real IceConn; returns the observation after init and after every op.
 pub fn exec(rt: &tokio::runtime::Runtime, c: &Case) -> Vec<Obs> {
@@ -86,14 +142,7 @@ pub fn exec(rt: &tokio::runtime::Runtime, c: &Case) -> Vec<Obs> {
     let dlog = Arc::new(Rec(Mutex::new(vec![]), "dtls"));
     conn.set_rtp_receiver(log.clone());
     conn.set_dtls_receiver(dlog.clone());
-    let obs = |fwd: &'static str| Obs {
-        remote: ip_of(*conn.remote_addr.read()),
-        rtcp: conn.remote_rtcp_addr.read().map(ip_of),
-        latched: conn.rtp_latched.load(Ordering::Relaxed),
-        rtcpl: conn.rtcp_latched.load(Ordering::Relaxed),
-        fwd,
-    };
-    let mut out = vec![obs("-")];
+    let mut out = vec![observe(&conn, "-")];
     let mut mb = Vec::new();
     for op in &c.ops {
         let mut fwd = "-";
@@ -112,126 +161,146 @@ pub fn exec(rt: &tokio::runtime::Runtime, c: &Case) -> Vec<Obs> {
             Op::Maxp(v) => conn.set_probation_max_packets(if *v == 0 { None } else { Some(*v) }),
             Op::RtcpAddr(a) => conn.set_remote_rtcp_addr(a.map(|(i, p)| sa(i, p))),
         }
-        out.push(obs(fwd));
+        out.push(observe(&conn, fwd));
     }
     out
 }
 
 // ---------------------------------------------------------------------------------------------
-// Property oracles evaluated directly on the implementation's observations.
-// Independent bookkeeping written from the doc comment of `RtpCandidateState` (rules 1,2,3) and
-// the property text — NOT from the body of `receive`.
+// Property oracles evaluated directly on the implementation's *public* observations (remote
+// address, RTCP address, the two latched flags). Written from the property text and the doc
+// comment of `RtpCandidateState` (rules 1, 2, 3 "evaluated in order"), NOT from the body of
+// `receive`: the rules are evaluated declaratively as *sets* of admissible winners (every tie the
+// comment leaves open is admissible), so the oracle encodes neither the code's branch order nor
+// `min_by_key` / `max_by` tie behaviour.
 
 struct Src { addr: (u8, u16), seqs: Vec<u16>, marker: bool }
+impl Src {
+    /// "first_seq": lowest sequence number seen from the source
+    fn first_seq(&self) -> u16 { *self.seqs.iter().min().unwrap() }
+    /// run of `seq == last_seq + 1` steps at the tail of this source's packets
+    fn run(&self) -> usize {
+        let mut run = 0;
+        for w in self.seqs.windows(2) { if w[1] == w[0].wrapping_add(1) { run += 1; } else { run = 0; } }
+        run
+    }
+}
 
 fn is_rtp(b: &[u8]) -> bool { !b.is_empty() && (128..192).contains(&b[0]) && !(b.len() >= 2 && (200..=211).contains(&b[1])) }
 fn is_rtcp(b: &[u8]) -> bool { !b.is_empty() && (128..192).contains(&b[0]) && b.len() >= 2 && (200..=211).contains(&b[1]) }
 
-/// documented winner for the observation history `srcs` (in order of first appearance), `total` packets.
-fn spec_winner(srcs: &[Src], total: usize, max: usize) -> Option<(u8, u16)> {
-    // rule 1: marker seen and lowest first (lowest) seq
-    let mut best: Option<(&Src, u16)> = None;
-    for s in srcs.iter().filter(|s| s.marker) {
-        let fs = *s.seqs.iter().min().unwrap();
-        if best.map(|(_, b)| fs < b).unwrap_or(true) { best = Some((s, fs)); }
+/// The documented decision, as the set of admissible winners: rule 1 (marker, lowest first_seq),
+/// else rule 2 (>= 3 packets observed and a source with two sequential steps), else rule 3 (window
+/// exhausted: most packets, ties → lowest first_seq), else no decision.
+fn documented_winners(srcs: &[Src], total: usize, max: usize) -> Vec<(u8, u16)> {
+    let markers: Vec<&Src> = srcs.iter().filter(|s| s.marker).collect();
+    if let Some(lo) = markers.iter().map(|s| s.first_seq()).min() {
+        return markers.iter().filter(|s| s.first_seq() == lo).map(|s| s.addr).collect();
     }
-    if let Some((s, _)) = best { return Some(s.addr); }
+    let runs: Vec<&Src> = srcs.iter().filter(|s| s.run() >= 2).collect();
+    if total >= 3 && !runs.is_empty() { return runs.iter().map(|s| s.addr).collect(); }
     if total >= max {
-        // rule 3: most packets, ties → lowest first_seq (then the later source, as `max_by` does)
-        let mut w: Option<&Src> = None;
-        for s in srcs {
-            w = match w { None => Some(s), Some(b) => {
-                let (bc, sc) = (b.seqs.len().min(255), s.seqs.len().min(255));
-                let (bf, sf) = (*b.seqs.iter().min().unwrap(), *s.seqs.iter().min().unwrap());
-                if sc > bc || (sc == bc && sf <= bf) { Some(s) } else { Some(b) } } };
-        }
-        return w.map(|s| s.addr);
+        let hi = srcs.iter().map(|s| s.seqs.len()).max().unwrap_or(0);
+        let top: Vec<&Src> = srcs.iter().filter(|s| s.seqs.len() == hi).collect();
+        let lo = top.iter().map(|s| s.first_seq()).min().unwrap_or(0);
+        return top.iter().filter(|s| s.first_seq() == lo).map(|s| s.addr).collect();
     }
-    if total >= 3 {
-        for s in srcs {
-            // consecutive run length at the tail of this source's packets
-            let mut run = 0;
-            for w in s.seqs.windows(2) { if w[1] == w[0].wrapping_add(1) { run += 1; } else { run = 0; } }
-            if run >= 2 { return Some(s.addr); }
-        }
-    }
-    None
+    vec![]
 }
 
 /// Returns oracle failures (signature, detail) for a case and its observations.
 pub fn oracles(c: &Case, obs: &[Obs]) -> Vec<(String, String)> {
-    let mut fails = vec![];
+    let mut fails: Vec<(String, String)> = vec![];
     let mut expected: u32 = 0;
     let mut latch_on = false;
     let mut maxp = c.maxp;
-    let mut prob_max: Option<u8> = None; // probation window in force
-    let mut srcs: Vec<Src> = vec![];
+    let mut window: Option<u8> = None; // probation window in force (None = immediate-latch mode)
+    let mut srcs: Vec<Src> = vec![];   // sources of expected-SSRC RTP since the window was (re)armed
     let mut total = 0usize;
-    let mut allowed: Vec<(u8, u16)> = vec![];
     let mut rtcp_changes = 0;
     for (i, op) in c.ops.iter().enumerate() {
         let (before, after) = (&obs[i], &obs[i + 1]);
-        let wf = before.remote.1 != 0 && !c.tcp; // configured destination on a datagram socket
+        let mut fail = |sig: &str, d: String| fails.push((sig.to_string(), format!("step {i} ({}): {d}", op_text(op))));
+        let moved = after.remote != before.remote;
         match op {
             Op::Pkt(ip, port, b) => {
                 let a = (*ip, *port);
                 let legit = is_rtp(b) && b.len() >= 12 && {
                     let ssrc = u32::from_be_bytes([b[8], b[9], b[10], b[11]]);
                     expected == 0 || ssrc == expected };
-                if legit { allowed.push(a); }
-                if wf && before.latched && latch_on && after.remote != before.remote {
-                    fails.push(("sticky:pkt-moved-latched-destination".into(), format!("step {i}")));
-                }
-                if wf && is_rtcp(b) && after.remote != before.remote {
-                    fails.push(("rtcp:moved-rtp-destination".into(), format!("step {i}")));
-                }
-                if wf && after.remote != before.remote && !allowed.contains(&after.remote) {
-                    fails.push(("move:to-non-legit-source".into(), format!("step {i} -> {:?}", after.remote)));
-                }
                 if after.rtcp != before.rtcp {
                     rtcp_changes += 1;
-                    if !is_rtcp(b) { fails.push(("rtcp:set-by-non-rtcp".into(), format!("step {i}"))); }
-                    if rtcp_changes > 1 { fails.push(("rtcp:set-more-than-once".into(), format!("step {i}"))); }
+                    if !is_rtcp(b) { fail("rtcp:set-by-non-rtcp", String::new()); }
+                    if after.rtcp != Some(a) { fail("rtcp:set-to-other-than-source", String::new()); }
+                    if rtcp_changes > 1 { fail("rtcp:set-more-than-once", String::new()); }
                 }
-                if latch_on && !before.latched && legit {
-                    if let Some(m) = prob_max {
-                        total += 1;
+                if latch_on {
+                    // clause 4: RTCP never touches the RTP destination — no exception for unset destinations
+                    if is_rtcp(b) && moved { fail("rtcp:moved-rtp-destination", format!("{:?} -> {:?}", before.remote, after.remote)); }
+                    // clause 3: committed ⇒ no packet of any kind moves the destination or clears the latch
+                    if before.latched && moved { fail("sticky:pkt-moved-latched-destination", format!("{:?} -> {:?}", before.remote, after.remote)); }
+                    if before.latched && !after.latched { fail("sticky:pkt-cleared-latch", String::new()); }
+                    // clause 1: only expected-SSRC RTP moves the destination …
+                    if moved && !legit && !is_rtcp(b) && !before.latched {
+                        fail("move:by-packet-that-is-not-expected-ssrc-rtp", format!("{:?} -> {:?}", before.remote, after.remote)); }
+                    if legit && !before.latched {
+                        // … and only to a source of such RTP seen since the window was armed
                         let seq = u16::from_be_bytes([b[2], b[3]]);
                         let marker = b[1] & 0x80 != 0;
-                        if let Some(s) = srcs.iter_mut().find(|s| s.addr == a) { s.seqs.push(seq); s.marker |= marker; }
-                        else { srcs.push(Src { addr: a, seqs: vec![seq], marker }); }
-                        let w = spec_winner(&srcs, total, m as usize);
-                        match (w, after.latched) {
-                            (Some(w), true) => if after.remote != w {
-                                fails.push(("winner:committed-destination-is-not-rule-winner".into(),
-                                    format!("step {i}: rules pick {:?}, destination {:?}", w, after.remote))); },
-                            (Some(_), false) => fails.push(("commit:not-latched-when-rules-decide".into(), format!("step {i}"))),
-                            (None, true) => fails.push(("commit:latched-without-rule".into(), format!("step {i}"))),
-                            (None, false) => {}
+                        if let Some(m) = window {
+                            total += 1;
+                            if let Some(s) = srcs.iter_mut().find(|s| s.addr == a) { s.seqs.push(seq); s.marker |= marker; }
+                            else { srcs.push(Src { addr: a, seqs: vec![seq], marker }); }
+                            if moved && !srcs.iter().any(|s| s.addr == after.remote) {
+                                fail("move:to-non-legit-source", format!("-> {:?}", after.remote)); }
+                            let w = documented_winners(&srcs, total, m as usize);
+                            match (w.is_empty(), after.latched) {
+                                (false, true) => if !w.contains(&after.remote) {
+                                    fail("winner:committed-destination-is-not-documented-rule-winner",
+                                        format!("documented rules admit {:?}, destination {:?}", w, after.remote)); },
+                                (false, false) => fail("commit:not-latched-when-rules-decide", format!("{w:?}")),
+                                (true, true) => fail("commit:latched-without-rule", String::new()),
+                                (true, false) => if after.remote != a { fail("probation:destination-does-not-follow-source", String::new()); },
+                            }
+                            if total >= m as usize && !after.latched { fail("commit:not-within-max-packets", String::new()); }
+                            if after.latched { window = None; }
+                        } else {
+                            if !after.latched || after.remote != a { fail("commit:immediate-latch-missed", String::new()); }
                         }
-                        if total >= m as usize && !after.latched {
-                            fails.push(("commit:not-within-max-packets".into(), format!("step {i}")));
-                        }
-                    } else if !after.latched || after.remote != a {
-                        fails.push(("commit:immediate-latch-missed".into(), format!("step {i}")));
-                    }
+                    } else if legit && moved { /* before.latched: reported above */ }
+                    if !legit && !before.latched && after.latched { fail("commit:by-packet-that-is-not-expected-ssrc-rtp", String::new()); }
                 }
             }
-            Op::Enable => { latch_on = true; if maxp > 0 { if prob_max.is_none() { prob_max = Some(maxp); srcs.clear(); total = 0; } } else { prob_max = None; } }
-            Op::Reset => { rtcp_changes = 0; srcs.clear(); total = 0; prob_max = if latch_on && maxp > 0 { Some(maxp) } else { None }; }
-            Op::Sig(ip, p) => { allowed.push((*ip, *p)); rtcp_changes = 0; srcs.clear(); total = 0;
-                                prob_max = if latch_on && maxp > 0 { Some(maxp) } else { None }; }
+            Op::Enable => {
+                latch_on = true;
+                if maxp > 0 { if window.is_none() { window = Some(maxp); srcs.clear(); total = 0; } } else { window = None; }
+                if moved || after.latched != before.latched { fail("api:enable-changed-destination-or-latch", String::new()); }
+            }
+            Op::Reset => {
+                rtcp_changes = 0; srcs.clear(); total = 0; window = if latch_on && maxp > 0 { Some(maxp) } else { None };
+                if moved { fail("api:reset-moved-destination", String::new()); }
+                if after.latched { fail("api:reset-left-latch-set", String::new()); }
+            }
+            Op::Sig(ip, p) => {
+                rtcp_changes = 0; srcs.clear(); total = 0; window = if latch_on && maxp > 0 { Some(maxp) } else { None };
+                if after.remote != (*ip, *p) { fail("api:signaling-retarget-not-applied", String::new()); }
+                if after.latched { fail("api:signaling-retarget-left-latch-set", String::new()); }
+            }
             Op::Pair(ip, p) => {
-                allowed.push((*ip, *p));
-                if before.latched && latch_on && after.remote != before.remote {
-                    fails.push(("sticky:pair-update-moved-latched-destination".into(), format!("step {i}")));
-                }
+                if before.latched && latch_on {
+                    if moved { fail("sticky:pair-update-moved-latched-destination", format!("{:?} -> {:?}", before.remote, after.remote)); }
+                } else if after.remote != (*ip, *p) { fail("api:pair-update-not-applied", String::new()); }
+                if after.latched != before.latched { fail("api:pair-update-changed-latch", String::new()); }
             }
-            Op::Ssrc(v) => expected = *v,
-            Op::Maxp(v) => maxp = *v,
-            Op::RtcpAddr(_) => rtcp_changes = 0,
+            Op::Ssrc(v) => {
+                // sources seen under another SSRC expectation did not send "RTP carrying the expected SSRC"
+                if *v != expected { srcs.clear(); total = 0; }
+                expected = *v;
+                if moved || after.latched != before.latched { fail("api:ssrc-changed-destination-or-latch", String::new()); }
+            }
+            Op::Maxp(v) => { maxp = *v; if moved || after.latched != before.latched { fail("api:maxp-changed-destination-or-latch", String::new()); } }
+            Op::RtcpAddr(_) => { rtcp_changes = 0; if moved || after.latched != before.latched { fail("api:rtcp-addr-changed-destination-or-latch", String::new()); } }
         }
-        if after.latched && !before.latched { /* committed */ }
     }
     fails
 }
@@ -240,7 +309,13 @@ pub fn oracles(c: &Case, obs: &[Obs]) -> Vec<(String, String)> {
 // Generators
 
 const SSRC: u32 = 0x1122_3344;
-const SRC: [(u8, u16); 3] = [(1, 5001), (2, 5002), (3, 5003)];
+/// A and C share the IP, B and C share the port (the doc comment's scenario is "multiple source
+/// ports" of one host): a lookup or guard comparing only `.ip()` or only `.port()` is visible.
+const SRC: [(u8, u16); 3] = [(1, 5001), (2, 5002), (1, 5002)];
+/// further sources for the random stream (same port other IP, v4-mapped IPv6 of A, plain IPv6)
+const SRC_X: [(u8, u16); 4] = [(2, 5001), (101, 5001), (201, 5001), (1, 0)];
+const SIG: (u8, u16) = (4, 5004);
+const PAIR: (u8, u16) = (5, 5005);
 
 fn rtp(marker: bool, seq: u16, ts: u32, ssrc: u32) -> Vec<u8> {
     let mut b = vec![0x80, if marker { 0x80 | 96 } else { 96 }];
@@ -270,59 +345,121 @@ impl Alpha {
                 _ => Op::Pkt(ip, port, rtcp()),
             }
         } else {
-            match k { 18 => Op::Reset, 19 => Op::Sig(3, 5003), _ => Op::Pair(2, 5002) }
+            match k { 18 => Op::Reset, 19 => Op::Sig(SIG.0, SIG.1), _ => Op::Pair(PAIR.0, PAIR.1) }
         }
     }
 }
 pub const NSYM: usize = 21;
 
+fn case_text(c: &Case) -> String {
+    format!("init,{},{},{},{} {}", c.init.0, c.init.1, c.maxp, c.tcp as u8,
+        c.ops.iter().map(op_text).collect::<Vec<_>>().join(" "))
+}
+
 fn emit(run: &mut Run, rt: &tokio::runtime::Runtime, c: &Case) {
     let obs = exec(rt, c);
-    let input = format!("init,{},{},{},{} {}", c.init.0, c.init.1, c.maxp, c.tcp as u8,
-        c.ops.iter().map(op_text).collect::<Vec<_>>().join(" "));
-    let out = obs.iter().map(|o| o.text()).collect::<Vec<_>>().join(" ");
+    let input = case_text(c);
+    let out = obs_line(&obs);
     let committed = obs.iter().any(|o| o.latched);
     let moved = obs.windows(2).any(|w| w[0].remote != w[1].remote);
     run.case("latch", &input, &out, committed || moved);
     if committed { run.count("cases_committed"); }
     if moved { run.count("cases_destination_moved"); }
     if obs.windows(2).any(|w| w[0].rtcp != w[1].rtcp) { run.count("cases_rtcp_learnt"); }
+    if obs.iter().any(|o| o.prob.as_ref().map(|p| p.cands.len() >= 2).unwrap_or(false)) { run.count("cases_two_or_more_candidates"); }
+    if obs.iter().any(|o| o.prob.as_ref().map(|p| p.cands.iter().any(|c| c.count == 255) || p.total == 255).unwrap_or(false)) { run.count("cases_counter_at_255"); }
     for (sig, detail) in oracles(c, &obs) {
         run.fail(&sig, &input, &detail);
     }
 }
 
+/// prefixes of the exhaustive part: (name, init address, ops before the enumerated symbols)
+fn prefixes() -> Vec<(&'static str, (u8, u16), Vec<Op>)> {
+    vec![
+        ("ssrc+rtcpaddr+enable", (1, 5001), vec![Op::Ssrc(SSRC), Op::RtcpAddr(Some((1, 5101))), Op::Enable]),
+        ("enable-only(no ssrc known, rtcp-mux)", (9, 5009), vec![Op::Enable]),
+        ("unset-destination 0.0.0.0:0 + enable + ssrc", (0, 0), vec![Op::Enable, Op::Ssrc(SSRC), Op::RtcpAddr(Some((1, 5101)))]),
+        ("latching off", (1, 5001), vec![Op::Ssrc(SSRC), Op::RtcpAddr(Some((1, 5101)))]),
+    ]
+}
+
 pub fn run(args: &Args) {
     let rt = tokio::runtime::Builder::new_current_thread().enable_all().build().unwrap();
-    let mut run = Run::new("c18", &args.out);
     if let Some(case) = &args.replay {
+        if case.starts_with("pc ") { pc_stream::replay(&rt, case); return; }
+        if case.starts_with("race ") { race::replay(case); return; }
         let c = parse_case(case);
         let obs = exec(&rt, &c);
-        println!("impl: {}", obs.iter().map(|o| o.text()).collect::<Vec<_>>().join(" "));
+        println!("impl: {}", obs_line(&obs));
         for (s, d) in oracles(&c, &obs) { println!("ORACLE-FAIL {s} {d}"); }
         return;
     }
-    // (1) exhaustive: all sequences of length L over the 21-symbol alphabet, after `ss,SSRC ra en`
-    let (len, settings): (usize, Vec<u8>) = if args.tier_thorough { (4, vec![0, 1, 2, 3, 4, 6, 8]) } else { (3, vec![0, 1, 2, 3, 4, 5, 6, 7, 8]) };
-    let mut plan: Vec<(usize, u8)> = settings.iter().map(|&m| (len, m)).collect();
-    if args.tier_thorough { plan.push((5, 3)); plan.push((5, 6)); }
-    for &(len, maxp) in &plan {
+    let mut run = Run::new("c18", &args.out);
+    let thorough = args.tier_thorough;
+    // (1) exhaustive: all sequences of length L over the 21-symbol alphabet
+    let pre = prefixes();
+    let mut plan: Vec<(usize, usize, u8)> = vec![]; // (prefix, len, maxp)
+    if thorough {
+        for m in [0u8, 1, 2, 3, 4, 6, 8] { plan.push((0, 4, m)); }
+        plan.push((0, 5, 3)); plan.push((0, 5, 6));
+        for p in 1..pre.len() { for m in [0u8, 3, 6] { plan.push((p, 4, m)); } }
+    } else {
+        for m in 0u8..=8 { plan.push((0, 3, m)); }
+        plan.push((0, 4, 3));
+        for p in 1..pre.len() { for m in [0u8, 2, 3, 6] { plan.push((p, 3, m)); } }
+    }
+    for &(pi, len, maxp) in &plan {
         let n = NSYM.pow(len as u32);
         for idx in 0..n {
             let mut al = Alpha::new();
-            let mut ops = vec![Op::Ssrc(SSRC), Op::RtcpAddr(Some((1, 5101))), Op::Enable];
+            let mut ops = pre[pi].2.clone();
             let mut k = idx;
             for _ in 0..len { ops.push(al.sym(k % NSYM)); k /= NSYM; }
-            emit(&mut run, &rt, &Case { init: (1, 5001), maxp, tcp: false, ops });
+            emit(&mut run, &rt, &Case { init: pre[pi].1, maxp, tcp: false, ops });
         }
-        run.count_n(&format!("exhaustive_len{len}_maxp{maxp}"), n as u64);
+        run.count_n(&format!("exhaustive_prefix{pi}_len{len}_maxp{maxp}"), n as u64);
     }
-    // (2) random longer sequences (saturating counters, wrap, unknown ssrc, unset destination, API ops)
+    // (2) exhaustive rule-competition family: two sources sharing the IP, no markers, each packet
+    // either continues the source's run (+1) or breaks it (-3); every sequence up to the length
+    // at which the window must have closed. This is where rules 2 and 3 compete (total = max with a
+    // run completed by the same packet).
+    let comp: Vec<(u8, usize)> = if thorough { vec![(3, 4), (4, 5), (5, 6), (6, 7), (7, 8), (8, 9), (9, 10)] } else { vec![(3, 4), (4, 5), (5, 6), (6, 7), (7, 8)] };
+    for &(maxp, len) in &comp {
+        let n = 4usize.pow(len as u32);
+        for idx in 0..n {
+            let mut last = [1000u16, 20u16];
+            let mut ops = vec![Op::Ssrc(SSRC), Op::Enable];
+            let mut k = idx;
+            for _ in 0..len {
+                let (s, brk) = ((k & 1) as usize, k & 2 != 0); k >>= 2;
+                let seq = if brk { last[s].wrapping_sub(3) } else { last[s].wrapping_add(1) };
+                last[s] = seq;
+                let (ip, port) = [SRC[0], SRC[2]][s];
+                ops.push(Op::Pkt(ip, port, rtp(false, seq, seq as u32, SSRC)));
+            }
+            emit(&mut run, &rt, &Case { init: (9, 5009), maxp, tcp: false, ops });
+        }
+        run.count_n(&format!("rule_competition_maxp{maxp}_len{len}"), n as u64);
+    }
+    // (3) directed: u8 counters at their ceiling (window 255, one source breaking its run each time,
+    // a second source once): total and packet_count reach 255 exactly when rule 3 must fire
+    for extra in [0usize, 1, 2] {
+        let mut ops = vec![Op::Ssrc(SSRC), Op::Enable];
+        let mut seq = 40000u16;
+        for i in 0..(255 + extra) {
+            seq = seq.wrapping_sub(3);
+            let (ip, port) = if i == 100 && extra == 1 { SRC[1] } else { SRC[0] };
+            ops.push(Op::Pkt(ip, port, rtp(false, seq, 0, SSRC)));
+        }
+        emit(&mut run, &rt, &Case { init: (9, 5009), maxp: 255, tcp: false, ops });
+        run.count("directed_window255");
+    }
+    // (4) random longer sequences (wrap, unknown ssrc, unset destination, API ops, TCP socket, IPv6)
     let mut rng = Rng::new(args.seed);
-    let nrand = if args.tier_thorough { 200_000 } else { 20_000 };
+    let nrand = if thorough { 200_000 } else { 20_000 };
     for _ in 0..nrand {
         let maxp = *rng.pick(&[0u8, 1, 2, 3, 4, 5, 6, 7, 8, 8, 20, 255]);
-        let init = *rng.pick(&[(1u8, 5001u16), (9, 5009), (0, 0), (1, 0)]);
+        let init = *rng.pick(&[(1u8, 5001u16), (9, 5009), (0, 0), (1, 0), (4, 5004)]);
         let mut ops = vec![];
         if rng.chance(3, 4) { ops.push(Op::Ssrc(SSRC)); }
         if rng.chance(1, 2) { ops.push(Op::RtcpAddr(Some((1, 5101)))); }
@@ -331,7 +468,11 @@ pub fn run(args: &Args) {
         let mut al = Alpha::new();
         for _ in 0..n {
             let r = rng.below(100);
-            let op = if r < 70 { al.sym(rng.below(18) as usize) }
+            let op = if r < 66 { al.sym(rng.below(18) as usize) }
+                else if r < 70 {
+                    let (ip, port) = *rng.pick(&SRC_X);
+                    Op::Pkt(ip, port, match rng.below(3) { 0 => rtcp(), 1 => rtp(false, 9, 9, 0xdead_beef),
+                        _ => rtp(rng.chance(1, 4), rng.next() as u16, rng.next() as u32, SSRC) }) }
                 else if r < 80 {
                     let (ip, port) = *rng.pick(&SRC);
                     let b = match rng.below(6) {
@@ -341,8 +482,9 @@ pub fn run(args: &Args) {
                         4 => rtp(rng.chance(1, 2), rng.next() as u16, rng.next() as u32, if rng.chance(1, 2) { SSRC } else { 0 }),
                         _ => { let n = rng.range(1, 20) as usize; rng.bytes(n) } };
                     Op::Pkt(ip, port, b) }
-                else if r < 84 { Op::Reset } else if r < 88 { Op::Sig(*rng.pick(&[1u8, 2, 3, 9]), *rng.pick(&[5001u16, 5002, 5003, 5009])) }
-                else if r < 92 { let (i, p) = *rng.pick(&SRC); Op::Pair(i, p) }
+                else if r < 84 { Op::Reset }
+                else if r < 88 { let (i, p) = *rng.pick(&[SIG, (4, 0), (1, 0), SRC[0], SRC[1], SRC[2], (9, 5009)]); Op::Sig(i, p) }
+                else if r < 92 { let (i, p) = *rng.pick(&[PAIR, SRC[0], SRC[1], SRC[2], (5, 0)]); Op::Pair(i, p) }
                 else if r < 94 { Op::Ssrc(*rng.pick(&[0u32, SSRC, 5])) }
                 else if r < 96 { Op::Maxp(*rng.pick(&[0u8, 1, 3, 6])) }
                 else if r < 98 { Op::Enable }
@@ -351,12 +493,20 @@ pub fn run(args: &Args) {
         }
         let tcp = rng.chance(1, 25);
         if tcp { run.count("random_tcp_socket_cases"); }
+        if init.1 == 0 { run.count("random_unset_destination_cases"); }
         emit(&mut run, &rt, &Case { init, maxp, tcp, ops });
     }
     run.count_n("random_sequences", nrand);
+    // (5) structural tie: every writer of `remote_addr` in the source tree is a modelled site
+    writers::run(&mut run);
+    // (6) the anchored callers: a real PeerConnection in RTP mode
+    pc_stream::run(&mut run, &rt, args);
+    // (7) API ops racing with receive(): schedules of the yield-point hook executed on the real code
+    race::run(&mut run, args);
     run.exhaustive = true;
     run.notes.insert("exhaustive_scope".into(), serde_json::json!(format!(
-        "all {}^{} sequences over the 21-symbol alphabet for probation settings {:?}", NSYM, len, settings)));
+        "all 21^L sequences over the 21-symbol alphabet: {:?} (prefix, L, window); prefixes {:?}; all 4^L rule-competition sequences {:?} (window, L)",
+        plan, pre.iter().map(|p| p.0).collect::<Vec<_>>(), comp)));
     run.finish();
 }
 
@@ -377,4 +527,625 @@ pub fn parse_case(s: &str) -> Case {
         });
     }
     Case { init: (init[1].parse().unwrap(), init[2].parse().unwrap()), maxp: init[3].parse().unwrap(), tcp: init.get(4) == Some(&"1"), ops }
+}
+
+/// Structural tie for the anchored callers (`src/peer_connection.rs`, `src/transports/ice/mod.rs`, …):
+/// the model accounts for a fixed set of `remote_addr.write()` sites, all in `conn.rs`; every other
+/// file must reach the destination through `set_remote_addr_from_selected_pair` /
+/// `set_remote_addr_from_signaling` (the `Pair` / `Sig` ops). The non-test part of every source
+/// file is scanned on each run; the Lean side (`Latch.modelledWriters`) holds the expected counts.
+mod writers {
+    use super::*;
+    pub fn repo() -> String {
+        if let Ok(r) = std::env::var("VERIF_REPO") { return r; }
+        let f = concat!(env!("CARGO_MANIFEST_DIR"), "/../.verif_repo");
+        std::fs::read_to_string(f).map(|s| s.trim().to_string()).unwrap_or_else(|_| "/repo".into())
+    }
+    fn scan(dir: &std::path::Path, out: &mut Vec<std::path::PathBuf>) {
+        let mut es: Vec<_> = std::fs::read_dir(dir).map(|d| d.flatten().map(|e| e.path()).collect()).unwrap_or_default();
+        es.sort();
+        for p in es { if p.is_dir() { scan(&p, out); } else if p.extension().map(|e| e == "rs").unwrap_or(false) { out.push(p); } }
+    }
+    /// `(file, line)` of every `remote_addr . write()` in non-test code (whitespace/newlines tolerated)
+    pub fn sites() -> Vec<(String, usize)> {
+        let root = repo();
+        let mut files = vec![];
+        scan(std::path::Path::new(&format!("{root}/src")), &mut files);
+        let mut out = vec![];
+        for f in files {
+            let rel = f.strip_prefix(&root).unwrap().to_string_lossy().trim_start_matches('/').to_string();
+            if rel.starts_with("src/verif_hooks") || rel.ends_with("/tests.rs") { continue; }
+            let txt = std::fs::read_to_string(&f).unwrap_or_default();
+            let code = match txt.find("#[cfg(test)]") { Some(i) => &txt[..i], None => &txt[..] };
+            let squeezed: String = code.chars().filter(|c| !c.is_whitespace() || *c == '\n').collect();
+            let flat = squeezed.replace('\n', "\u{1}");
+            let mut from = 0;
+            // tolerate a line break between the field and the call
+            let pats = ["remote_addr.write()", "remote_addr\u{1}.write()"];
+            loop {
+                let next = pats.iter().filter_map(|p| flat[from..].find(p).map(|i| i + from)).min();
+                let Some(i) = next else { break };
+                let line = flat[..i].matches('\u{1}').count() + 1;
+                out.push((rel.clone(), line));
+                from = i + 10;
+            }
+        }
+        out
+    }
+    pub fn run(run: &mut Run) {
+        let sites = sites();
+        let mut per: std::collections::BTreeMap<String, Vec<usize>> = Default::default();
+        per.insert("src/transports/ice/conn.rs".into(), vec![]);
+        for (f, l) in &sites { per.entry(f.clone()).or_default().push(*l); }
+        let input = per.iter().map(|(f, ls)| format!("{f}={}", ls.len())).collect::<Vec<_>>().join(" ");
+        let out = per.keys().map(|f| format!("{f}=ok")).collect::<Vec<_>>().join(" ");
+        run.case("writers", &input, &out, true);
+        run.count_n("remote_addr_write_sites", sites.len() as u64);
+        for (f, ls) in &per {
+            if f != "src/transports/ice/conn.rs" && !ls.is_empty() {
+                run.fail(&format!("tie:unmodelled-writer-of-remote_addr:{f}"), &format!("writers {f}:{:?}", ls),
+                    "a write to IceConn::remote_addr outside conn.rs bypasses the latch guard (set_remote_addr_from_selected_pair / _from_signaling)");
+            }
+        }
+    }
+}
+
+/// The anchored callers (`src/peer_connection.rs`, `src/transports/ice/mod.rs`): a real
+/// `PeerConnection` in RTP mode with latching, driven through SDP and real loopback UDP sockets.
+///  * pranswer → the transport is created, latching enabled, destination set from signaling;
+///  * UDP datagrams from several local sockets (two share the IP, two share the port) → `IceConn::receive`;
+///  * final answer with a changed endpoint → `set_remote_addr_from_signaling` (model op `sg`);
+///  * re-INVITE with a changed endpoint → `complete_direct_rtp` → selected-pair change → the pair
+///    monitor task → `set_remote_addr_from_selected_pair` (model op `pr`);
+///  * an (unauthenticated, RTP-mode) STUN binding request from another IP with the pair's port →
+///    STUN-driven pair rewrite (`mod.rs` "RTP latching: updating remote address") → monitor → `pr`;
+///    from any other port → no pair change;
+///  * after every step `IceConn::send` / `try_send` / `send_rtcp` are called and the datagrams must
+///    arrive at the socket the model's destination names (the *send address*, not only the field).
+/// Compared with the model after every step: destination and latch flag.
+mod pc_stream {
+    use super::*;
+    use rustrtc::transports::ice::stun::{StunClass, StunMessage, StunMethod};
+    use rustrtc::{MediaKind, PeerConnection, RtcConfiguration, SdpType, SessionDescription, TransceiverDirection, TransportMode};
+    use std::time::Duration;
+    use tokio::net::UdpSocket;
+
+    /// symbolic addresses: index → (ip code, symbolic port, 127.0.0.x host byte)
+    /// S signaled endpoint, A, C (same IP as A), B (same port as C), T second signaled endpoint,
+    /// X (same port as S, other IP: the only kind of source the STUN rewrite accepts), Y same for T
+    const SYM: [(u8, u16, u8); 9] = [(9, 5009, 9), (1, 5001, 1), (1, 5002, 1), (2, 5002, 2), (4, 5004, 4), (3, 5009, 3), (3, 5004, 3), (9, 5010, 9), (4, 5005, 4)];
+    /// R / U: the RTCP ports (RTP port + 1) of S / T, used by the scenarios without rtcp-mux
+    const NAMES: [&str; 9] = ["S", "A", "C", "B", "T", "X", "Y", "R", "U"];
+
+    #[derive(Clone, Debug)]
+    pub enum Step { Pkt(usize, Vec<u8>), Answer(usize), Reinvite(usize), Stun(usize) }
+    #[derive(Clone, Debug)]
+    pub struct PcCase { pub maxp: u8, pub ssrc: bool, pub mux: bool, pub steps: Vec<Step> }
+
+    pub fn case_text(c: &PcCase) -> String {
+        format!("pc {},{},{} {}", c.maxp, c.ssrc as u8, c.mux as u8, c.steps.iter().map(|s| match s {
+            Step::Pkt(i, b) => format!("p,{},{}", NAMES[*i], hex(b)),
+            Step::Answer(i) => format!("answer,{}", NAMES[*i]),
+            Step::Reinvite(i) => format!("reinvite,{}", NAMES[*i]),
+            Step::Stun(i) => format!("stun,{}", NAMES[*i]) }).collect::<Vec<_>>().join(" "))
+    }
+    pub fn parse(s: &str) -> PcCase {
+        let mut it = s.split_whitespace(); it.next();
+        let h: Vec<&str> = it.next().unwrap().split(',').collect();
+        let idx = |n: &str| NAMES.iter().position(|x| *x == n).unwrap();
+        let steps = it.map(|t| { let f: Vec<&str> = t.split(',').collect(); match f[0] {
+            "p" => Step::Pkt(idx(f[1]), crate::unhex(f[2])), "answer" => Step::Answer(idx(f[1])),
+            "reinvite" => Step::Reinvite(idx(f[1])), _ => Step::Stun(idx(f[1])) } }).collect();
+        PcCase { maxp: h[0].parse().unwrap(), ssrc: h[1] == "1", mux: h.get(2) != Some(&"0"), steps }
+    }
+
+    struct Net { socks: Vec<UdpSocket> }
+    impl Net {
+        /// bind the seven sockets on ephemeral ports such that the "same port" relations hold
+        async fn new() -> Option<Net> {
+            for _ in 0..50 {
+                let bind = |h: u8, port: u16| async move { UdpSocket::bind(SocketAddr::new(IpAddr::V4(Ipv4Addr::new(127, 0, 0, h)), port)).await.ok() };
+                let Some(s) = bind(9, 0).await else { continue };
+                let Some(a) = bind(1, 0).await else { continue };
+                let Some(c) = bind(1, 0).await else { continue };
+                let Some(b) = bind(2, c.local_addr().unwrap().port()).await else { continue };
+                let Some(t) = bind(4, 0).await else { continue };
+                let Some(x) = bind(3, s.local_addr().unwrap().port()).await else { continue };
+                let Some(y) = bind(3, t.local_addr().unwrap().port()).await else { continue };
+                let Some(r) = bind(9, s.local_addr().unwrap().port().wrapping_add(1)).await else { continue };
+                let Some(u) = bind(4, t.local_addr().unwrap().port().wrapping_add(1)).await else { continue };
+                return Some(Net { socks: vec![s, a, c, b, t, x, y, r, u] });
+            }
+            None
+        }
+        fn real(&self, i: usize) -> SocketAddr { self.socks[i].local_addr().unwrap() }
+        fn sym(&self, a: SocketAddr) -> (u8, u16) {
+            for (i, s) in self.socks.iter().enumerate() { if s.local_addr().unwrap() == a { return (SYM[i].0, SYM[i].1); } }
+            (250, a.port())
+        }
+        async fn drain(&self) { let mut b = [0u8; 2048]; for s in &self.socks { while s.try_recv_from(&mut b).is_ok() {} } }
+        /// index of the socket that receives a datagram starting with `tag` within the timeout
+        async fn who_gets(&self, tag: &[u8]) -> Option<usize> {
+            let deadline = tokio::time::Instant::now() + Duration::from_millis(300);
+            let mut b = [0u8; 2048];
+            loop {
+                for (i, s) in self.socks.iter().enumerate() {
+                    while let Ok((n, _)) = s.try_recv_from(&mut b) { if b[..n].starts_with(tag) { return Some(i); } }
+                }
+                if tokio::time::Instant::now() > deadline { return None; }
+                tokio::time::sleep(Duration::from_millis(2)).await;
+            }
+        }
+    }
+
+    fn sdp(addr: SocketAddr, ver: u32, ssrc: bool, mux: bool) -> String {
+        format!("v=0\r\no=- 1 {ver} IN IP4 {ip}\r\ns=-\r\nt=0 0\r\nc=IN IP4 {ip}\r\nm=audio {port} RTP/AVP 0\r\na=rtpmap:0 PCMU/8000\r\n{mx}a=sendrecv\r\n{s}",
+            mx = if mux { "a=rtcp-mux\r\n" } else { "" }, ip = addr.ip(), port = addr.port(), s = if ssrc { format!("a=ssrc:{} cname:verif\r\n", SSRC) } else { String::new() })
+    }
+
+    pub struct PcOut { pub model_ops: Vec<String>, pub obs: Vec<String>, pub fails: Vec<(String, String)>, pub stun_rewrites: u64, pub stun_moved_open: u64, pub split_rtcp: u64, pub hidden: Vec<String> }
+
+    pub async fn exec(c: &PcCase) -> Result<PcOut, String> {
+        let net = Net::new().await.ok_or("could not bind the loopback sockets")?;
+        let mut cfg = RtcConfiguration::default();
+        cfg.transport_mode = TransportMode::Rtp;
+        cfg.enable_latching = true;
+        cfg.bind_ip = Some("127.0.0.1".into());
+        cfg.disable_ipv6 = true;
+        cfg.probation_max_packets = if c.maxp == 0 { None } else { Some(c.maxp) };
+        let pc = PeerConnection::new(cfg);
+        pc.add_transceiver(MediaKind::Audio, TransceiverDirection::SendRecv);
+        let offer = pc.create_offer().await.map_err(|e| format!("create_offer: {e:?}"))?;
+        pc.set_local_description(offer).map_err(|e| format!("set_local: {e:?}"))?;
+        let local = pc.ice_transport().local_candidates().into_iter().find(|c| c.component == 1).ok_or("no local candidate")?.address;
+        let pr = SessionDescription::parse(SdpType::Pranswer, &sdp(net.real(0), 1, c.ssrc, c.mux)).map_err(|e| format!("sdp: {e:?}"))?;
+        pc.set_remote_description(pr).await.map_err(|e| format!("set_remote(pranswer): {e:?}"))?;
+        let mut transport = None;
+        for _ in 0..500 { if let Some(t) = pc.verif_lc_rtp_transport() { transport = Some(t); break; } tokio::time::sleep(Duration::from_millis(2)).await; }
+        let conn = transport.ok_or("no rtp transport after pranswer")?.ice_conn();
+        tokio::time::sleep(Duration::from_millis(20)).await;
+        let observe = |net: &Net| { let r = net.sym(*conn.remote_addr.read()); format!("{}:{}/{}", r.0, r.1, conn.rtp_latched.load(Ordering::Relaxed) as u8) };
+        let mut out = PcOut { model_ops: vec![format!("init,{},{},{},0", SYM[0].0, SYM[0].1, c.maxp), "en".into(), format!("sg,{},{}", SYM[0].0, SYM[0].1)], obs: vec![], fails: vec![], stun_rewrites: 0, stun_moved_open: 0, split_rtcp: 0, hidden: vec![] };
+        { let (on, exp, mx, pr) = conn.verif_latch_state(); out.hidden.push(format!("on={on} expected={exp} maxp={mx} prob={:?}", pr.map(|p| (p.0, p.1, p.2.len())))); }
+        if c.ssrc { out.model_ops.push(format!("ss,{SSRC}")); }
+        out.model_ops.push("|".into());
+        out.obs.push(observe(&net));
+        let mut ver = 2;
+        let mut pair_remote = 0usize; // symbolic index of the selected pair's remote
+        let mut signaled = 0usize;    // symbolic index of the endpoint in the last applied remote SDP
+        for (k, st) in c.steps.iter().enumerate() {
+            let before = *conn.remote_addr.read();
+            match st {
+                Step::Pkt(i, b) => {
+                    let n0 = conn.rx_packets.load(Ordering::Relaxed);
+                    net.socks[*i].send_to(b, local).await.map_err(|e| format!("send: {e}"))?;
+                    for _ in 0..500 { if conn.rx_packets.load(Ordering::Relaxed) > n0 { break; } tokio::time::sleep(Duration::from_millis(2)).await; }
+                    if conn.rx_packets.load(Ordering::Relaxed) == n0 { return Err(format!("step {k}: datagram not delivered to IceConn::receive")); }
+                    out.model_ops.push(format!("p,{},{},{}", SYM[*i].0, SYM[*i].1, hex(b)));
+                }
+                Step::Answer(i) => {
+                    let d = SessionDescription::parse(SdpType::Answer, &sdp(net.real(*i), ver, c.ssrc, c.mux)).map_err(|e| format!("sdp: {e:?}"))?; ver += 1;
+                    pc.set_remote_description(d).await.map_err(|e| format!("set_remote(answer): {e:?}"))?;
+                    // an SDP whose media parameters are unchanged is not re-applied (`set_remote_description` shortcut)
+                    if *i != signaled { out.model_ops.push(format!("sg,{},{}", SYM[*i].0, SYM[*i].1)); pair_remote = *i; signaled = *i; }
+                    else { out.model_ops.push(format!("mp,{}", c.maxp)); }
+                }
+                Step::Reinvite(i) => {
+                    let d = SessionDescription::parse(SdpType::Offer, &sdp(net.real(*i), ver, c.ssrc, c.mux)).map_err(|e| format!("sdp: {e:?}"))?; ver += 1;
+                    pc.set_remote_description(d).await.map_err(|e| format!("set_remote(reinvite): {e:?}"))?;
+                    let a = pc.create_answer().await.map_err(|e| format!("create_answer: {e:?}"))?;
+                    pc.set_local_description(a).map_err(|e| format!("set_local(answer): {e:?}"))?;
+                    // `handle_reinvite` → `complete_direct_rtp` (a pair update, applied by the monitor task) and then
+                    // `configure_rtp_media_transports_from_remote` → `set_remote_addr_from_signaling`: net effect `sg`
+                    if *i != signaled { out.model_ops.push(format!("sg,{},{}", SYM[*i].0, SYM[*i].1)); pair_remote = *i; signaled = *i; }
+                    else { out.model_ops.push(format!("mp,{}", c.maxp)); }
+                }
+                Step::Stun(i) => {
+                    let m = StunMessage { class: StunClass::Request, method: StunMethod::Binding, transaction_id: [k as u8; 12], attributes: vec![] };
+                    let bytes = m.encode(None, true).map_err(|e| format!("stun encode: {e:?}"))?;
+                    net.socks[*i].send_to(&bytes, local).await.map_err(|e| format!("send: {e}"))?;
+                    // the rewrite applies to a source with the pair's port and another IP
+                    let applies = SYM[*i].1 == SYM[pair_remote].1 && SYM[*i].0 != SYM[pair_remote].0;
+                    if applies { out.model_ops.push(format!("pr,{},{}", SYM[*i].0, SYM[*i].1)); pair_remote = *i; out.stun_rewrites += 1; }
+                    else { out.model_ops.push(format!("mp,{}", c.maxp)); } // a no-op for the model
+                    tokio::time::sleep(Duration::from_millis(30)).await;
+                }
+            }
+            tokio::time::sleep(Duration::from_millis(25)).await; // let the pair-monitor task run
+            out.obs.push(observe(&net));
+            // the send paths use the destination the latch state machine holds
+            let dest = *conn.remote_addr.read();
+            if dest.port() != 0 {
+                net.drain().await;
+                let want_rtp = net.socks.iter().position(|s| s.local_addr().unwrap() == dest);
+                let rtcp_dest = conn.remote_rtcp_addr.read().unwrap_or(dest);
+                let want_rtcp = net.socks.iter().position(|s| s.local_addr().unwrap() == rtcp_dest);
+                if rtcp_dest != dest { out.split_rtcp += 1; }
+                for (name, tag) in [("send", &b"\x80\x60send"[..]), ("try_send", &b"\x80\x60trys"[..]), ("send_rtcp", &b"\x80\xc9rtcp"[..])] {
+                    let r = match name { "send" => conn.send(tag).await.map(|_| ()), "try_send" => conn.try_send(tag).map(|_| ()), _ => conn.send_rtcp(tag).await.map(|_| ()) };
+                    if let Err(e) = r { out.fails.push((format!("pc:send-path:{name}-failed"), format!("step {k}: {e}"))); continue; }
+                    let got = net.who_gets(tag).await;
+                    let want = if name == "send_rtcp" { want_rtcp } else { want_rtp };
+                    if got != want { out.fails.push((format!("pc:send-path:{name}-goes-elsewhere"),
+                        format!("step {k}: destination field {:?}, datagram arrived at {:?}", net.sym(dest), got.map(|g| NAMES[g])))); }
+                }
+            }
+            if matches!(st, Step::Stun(_)) && *conn.remote_addr.read() != before {
+                out.stun_moved_open += 1;
+                if out.model_ops.last().map(|t| t.starts_with("mp,")).unwrap_or(false) {
+                    out.fails.push(("pc:move:stun-request-not-from-the-pair-port-moved-destination".into(), format!("step {k}: {:?} -> {:?}", net.sym(before), net.sym(*conn.remote_addr.read()))));
+                }
+            }
+            { let (on, exp, mx, pr) = conn.verif_latch_state(); out.hidden.push(format!("on={on} expected={exp} maxp={mx} prob={:?}", pr.map(|p| (p.0, p.1, p.2.len())))); }
+        }
+        pc.close();
+        Ok(out)
+    }
+
+    fn emit(run: &mut Run, rt: &tokio::runtime::Runtime, c: &PcCase) {
+        let text = case_text(c);
+        match rt.block_on(exec(c)) {
+            Err(e) => { run.count("pc_setup_errors"); run.fail("pc:scenario-could-not-run", &text, &e); }
+            Ok(o) => {
+                let input = o.model_ops.join(" ");
+                run.case("pc", &input, &o.obs.join(" "), true);
+                run.count("pc_scenarios");
+                run.count_n("pc_stun_pair_rewrites", o.stun_rewrites);
+                // visible in the evidence: an unauthenticated RTP-mode STUN request (same port, other IP) moved the
+                // destination while the latch was open — a selected-pair update in the property's alphabet
+                run.count_n("pc_stun_request_moved_open_destination", o.stun_moved_open);
+                run.count_n("pc_send_probes_with_separate_rtcp_destination", o.split_rtcp);
+                // property oracles on the observations: the same `oracles` as the bare-IceConn stream,
+                // applied to the op list the scenario stands for (public fields only)
+                let ops: Vec<String> = o.model_ops.iter().filter(|t| *t != "|").cloned().collect();
+                let case = parse_case(&ops.join(" "));
+                let npre = o.model_ops.iter().position(|t| t == "|").unwrap() - 1;
+                let parse_obs = |t: &str| { let (r, l) = t.split_once('/').unwrap(); let (i, p) = r.split_once(':').unwrap();
+                    Obs { remote: (i.parse().unwrap(), p.parse().unwrap()), rtcp: None, latched: l == "1", rtcpl: false, fwd: "-", on: true, exp: 0, maxp: 0, prob: None } };
+                // states during the prefix are not observable (inside set_remote_description): replay it on a bare IceConn
+                let pre = exec_prefix(rt, &case, npre);
+                let mut obs: Vec<Obs> = pre;
+                obs.pop();
+                obs.extend(o.obs.iter().map(|t| parse_obs(t)));
+                for (sig, d) in oracles(&case, &obs) { if !sig.starts_with("rtcp:set") { run.fail(&format!("pc:{sig}"), &text, &d); } }
+                for (sig, d) in o.fails { run.fail(&sig, &text, &d); }
+            }
+        }
+    }
+    fn exec_prefix(rt: &tokio::runtime::Runtime, case: &Case, npre: usize) -> Vec<Obs> {
+        let c = Case { init: case.init, maxp: case.maxp, tcp: false, ops: case.ops[..npre].to_vec() };
+        super::exec(rt, &c)
+    }
+
+    fn scenarios(args: &Args) -> Vec<PcCase> {
+        let p = |i: usize, m: bool, seq: u16| Step::Pkt(i, rtp(m, seq, seq as u32, SSRC));
+        let wrong = |i: usize| Step::Pkt(i, rtp(true, 7, 7, 0xdead_beef));
+        let rtcp_ = |i: usize| Step::Pkt(i, rtcp());
+        let mut v = vec![
+            // commit by marker, then everything that must not move the destination
+            PcCase { maxp: 6, ssrc: true, mux: true, steps: vec![p(1, true, 10), p(2, true, 1), rtcp_(3), wrong(3), Step::Stun(5), Step::Answer(0), Step::Stun(5), Step::Stun(1), p(3, true, 2)] },
+            // re-INVITE to a new endpoint resets and retargets; STUN from the new pair's port retargets the open latch
+            PcCase { maxp: 6, ssrc: true, mux: true, steps: vec![p(1, true, 10), Step::Answer(0), Step::Reinvite(4), rtcp_(2), Step::Stun(5), Step::Stun(6), wrong(1), p(2, true, 3), Step::Stun(5), Step::Reinvite(4)] },
+            // open latch: pair updates do move it, wrong-SSRC / RTCP / non-matching STUN do not
+            PcCase { maxp: 6, ssrc: true, mux: true, steps: vec![rtcp_(1), wrong(2), Step::Stun(1), Step::Stun(5), p(1, false, 10), Step::Answer(4), Step::Stun(6), p(2, false, 20), p(2, false, 21), p(2, false, 22)] },
+            // changed final answer resets the latch and retargets
+            PcCase { maxp: 3, ssrc: true, mux: false, steps: vec![p(1, true, 10), Step::Answer(4), rtcp_(2), p(3, false, 5), p(2, false, 9), p(3, false, 6)] },
+            // same final answer keeps the latched NAT address
+            PcCase { maxp: 3, ssrc: false, mux: true, steps: vec![p(1, true, 10), Step::Answer(0), p(2, true, 1), Step::Stun(5)] },
+            // immediate-latch mode, no SSRC known
+            PcCase { maxp: 0, ssrc: false, mux: false, steps: vec![rtcp_(2), p(2, false, 1), p(1, false, 2), Step::Answer(4), Step::Stun(6), Step::Reinvite(0), p(3, false, 9)] },
+            // rule competition through the real sockets (window 6)
+            PcCase { maxp: 6, ssrc: true, mux: true, steps: vec![p(3, false, 1), p(1, false, 100), p(3, false, 10), p(1, false, 101), p(3, false, 20), p(1, false, 102), p(2, true, 0)] },
+        ];
+        let mut rng = Rng::new(args.seed ^ 0x18);
+        let n = if args.tier_thorough { 120 } else { 14 };
+        for _ in 0..n {
+            let mut steps = vec![];
+            let mut answered = false;
+            let mut seqs = [100u16, 200, 300, 400, 500, 600, 700];
+            for _ in 0..rng.range(4, 12) {
+                let r = rng.below(100);
+                steps.push(if r < 55 { let i = *rng.pick(&[1usize, 2, 3, 3, 2, 5]); seqs[i] = if rng.chance(2, 3) { seqs[i].wrapping_add(1) } else { seqs[i].wrapping_sub(3) }; p(i, rng.chance(1, 6), seqs[i]) }
+                    else if r < 65 { wrong(*rng.pick(&[1usize, 2, 3])) } else if r < 75 { rtcp_(*rng.pick(&[1usize, 2, 3])) }
+                    else if r < 87 { Step::Stun(*rng.pick(&[1usize, 3, 5, 6])) }
+                    else if answered { Step::Reinvite(*rng.pick(&[0usize, 4])) }
+                    else { answered = true; Step::Answer(*rng.pick(&[0usize, 4])) });
+            }
+            v.push(PcCase { maxp: *rng.pick(&[0u8, 2, 3, 6]), ssrc: rng.chance(2, 3), mux: rng.chance(1, 2), steps });
+        }
+        v
+    }
+
+    /// The offerer's extra (non-BUNDLE, second m-line) transport: `create_offer` creates its `IceConn` at
+    /// 0.0.0.0:0 with latching enabled, before any remote description exists. Datagrams sent to the video
+    /// port reach that `IceConn`; the answer then retargets it from signaling (`sg`). Same step language
+    /// (`Pkt`, one `Answer(T)`); model prefix `init,0,0,maxp,0 en`.
+    pub async fn exec_extra(c: &PcCase) -> Result<PcOut, String> {
+        let net = Net::new().await.ok_or("could not bind the loopback sockets")?;
+        let mut cfg = RtcConfiguration::default();
+        cfg.transport_mode = TransportMode::Rtp;
+        cfg.enable_latching = true;
+        cfg.bind_ip = Some("127.0.0.1".into());
+        cfg.disable_ipv6 = true;
+        cfg.probation_max_packets = if c.maxp == 0 { None } else { Some(c.maxp) };
+        cfg.sdp_compatibility = rustrtc::config::SdpCompatibilityMode::LegacySip; // no BUNDLE: one transport per m-line
+        let pc = PeerConnection::new(cfg);
+        pc.add_transceiver(MediaKind::Audio, TransceiverDirection::SendRecv);
+        pc.add_transceiver(MediaKind::Video, TransceiverDirection::SendRecv);
+        let offer = pc.create_offer().await.map_err(|e| format!("create_offer: {e:?}"))?;
+        let offer_text = offer.to_sdp_string();
+        pc.set_local_description(offer).map_err(|e| format!("set_local: {e:?}"))?;
+        let (held, _) = pc.verif_rtp_transports();
+        let conn = held.last().ok_or_else(|| format!("no extra transport after create_offer; offer:\n{offer_text}"))?.ice_conn();
+        let vport: u16 = offer_text.lines().find_map(|l| l.strip_prefix("m=video ")).and_then(|r| r.split(' ').next()).and_then(|p| p.parse().ok()).ok_or("no m=video port")?;
+        let local = SocketAddr::new(IpAddr::V4(Ipv4Addr::new(127, 0, 0, 1)), vport);
+        let observe = |net: &Net| { let a = *conn.remote_addr.read(); let r = if a.port() == 0 && a.ip().is_unspecified() { (0, 0) } else { net.sym(a) };
+            format!("{}:{}/{}", r.0, r.1, conn.rtp_latched.load(Ordering::Relaxed) as u8) };
+        let mut out = PcOut { model_ops: vec![format!("init,0,0,{},0", c.maxp), "en".into(), "|".into()], obs: vec![observe(&net)], fails: vec![], stun_rewrites: 0, stun_moved_open: 0, split_rtcp: 0, hidden: vec![] };
+        for (k, st) in c.steps.iter().enumerate() {
+            match st {
+                Step::Pkt(i, b) => {
+                    let n0 = conn.rx_packets.load(Ordering::Relaxed);
+                    net.socks[*i].send_to(b, local).await.map_err(|e| format!("send: {e}"))?;
+                    for _ in 0..500 { if conn.rx_packets.load(Ordering::Relaxed) > n0 { break; } tokio::time::sleep(Duration::from_millis(2)).await; }
+                    if conn.rx_packets.load(Ordering::Relaxed) == n0 { return Err(format!("step {k}: datagram to the video port {vport} not delivered to the extra IceConn")); }
+                    out.model_ops.push(format!("p,{},{},{}", SYM[*i].0, SYM[*i].1, hex(b)));
+                }
+                Step::Answer(i) => {
+                    // the offer's own media sections, re-addressed: audio at S, video at the given endpoint
+                    let mut video = false;
+                    let mut ans = String::new();
+                    for l in offer_text.lines() {
+                        let addr = if video { net.real(*i) } else { net.real(0) };
+                        if l.starts_with("m=audio ") || l.starts_with("m=video ") {
+                            video = l.starts_with("m=video ");
+                            let addr = if video { net.real(*i) } else { net.real(0) };
+                            let mut f: Vec<String> = l.split(' ').map(|x| x.to_string()).collect(); f[1] = addr.port().to_string();
+                            ans.push_str(&f.join(" ")); ans.push_str("\r\n");
+                            ans.push_str(&format!("c=IN IP4 {}\r\n", addr.ip()));
+                        } else if l.starts_with("c=") { if ans.contains("m=") { continue; } ans.push_str(&format!("c=IN IP4 {}\r\n", addr.ip())); }
+                        else if l.starts_with("a=candidate") || l.starts_with("a=ice-") || l.starts_with("a=rtcp:") || l.starts_with("a=ssrc") || l.starts_with("a=end-of-candidates") { continue; }
+                        else { ans.push_str(l); ans.push_str("\r\n"); }
+                    }
+                    let d = SessionDescription::parse(SdpType::Answer, &ans).map_err(|e| format!("sdp: {e:?}"))?;
+                    pc.set_remote_description(d).await.map_err(|e| format!("set_remote(answer): {e:?}"))?;
+                    out.model_ops.push(format!("sg,{},{}", SYM[*i].0, SYM[*i].1));
+                }
+                _ => return Err("only packets and one answer in an extra-transport scenario".into()),
+            }
+            tokio::time::sleep(Duration::from_millis(10)).await;
+            out.obs.push(observe(&net));
+            { let (on, exp, mx, pr) = conn.verif_latch_state(); out.hidden.push(format!("on={on} expected={exp} maxp={mx} prob={:?}", pr.map(|p| (p.0, p.1, p.2.len())))); }
+        }
+        pc.close();
+        Ok(out)
+    }
+
+    fn extra_scenarios() -> Vec<PcCase> {
+        let p = |i: usize, m: bool, seq: u16| Step::Pkt(i, rtp(m, seq, seq as u32, SSRC));
+        vec![
+            // RTCP, DTLS-like and garbage before anything is known must not set the destination; RTP (no SSRC known) does
+            PcCase { maxp: 6, ssrc: false, mux: true, steps: vec![Step::Pkt(1, rtcp()), Step::Pkt(2, vec![22, 254, 253, 0, 0, 0, 0, 0, 0, 0, 0, 0, 1, 0]), Step::Pkt(3, vec![200, 1, 2, 3]),
+                p(1, false, 10), p(2, false, 20), p(2, false, 21), p(2, false, 22), Step::Pkt(3, rtcp()), Step::Answer(4), Step::Pkt(1, rtcp()), p(3, true, 5), Step::Pkt(1, rtcp())] },
+            PcCase { maxp: 0, ssrc: false, mux: true, steps: vec![Step::Pkt(3, rtcp()), Step::Pkt(3, rtp(false, 1, 1, 5)[..8].to_vec()), p(3, false, 1), p(1, true, 2), Step::Answer(4), Step::Pkt(2, rtcp()), p(2, false, 9)] },
+        ]
+    }
+
+    pub fn run(run: &mut Run, rt: &tokio::runtime::Runtime, args: &Args) {
+        for c in scenarios(args) { emit(run, rt, &c); }
+        for c in extra_scenarios() {
+            let text = case_text(&c).replacen("pc ", "pc extra:", 1);
+            match rt.block_on(exec_extra(&c)) {
+                Err(e) => { run.count("pc_setup_errors"); run.fail("pc:scenario-could-not-run", &text, &e); }
+                Ok(o) => {
+                    run.case("pc", &o.model_ops.join(" "), &o.obs.join(" "), true);
+                    run.count("pc_extra_transport_scenarios");
+                    // clause 1 / 4 directly: before the answer only RTP may set the unset destination
+                    let mut prev = o.obs[0].clone();
+                    for (k, st) in c.steps.iter().enumerate() {
+                        if let Step::Pkt(_, b) = st { if !(is_rtp(b) && b.len() >= 12) && o.obs[k + 1] != prev {
+                            run.fail("pc:move:unset-destination-of-extra-transport-set-by-non-rtp", &text, &format!("step {k}: {} -> {}", prev, o.obs[k + 1])); } }
+                        prev = o.obs[k + 1].clone();
+                    }
+                }
+            }
+        }
+    }
+    pub fn replay(rt: &tokio::runtime::Runtime, case: &str) {
+        if let Some(rest) = case.strip_prefix("pc extra:") {
+            let c = parse(&format!("pc {rest}"));
+            match rt.block_on(exec_extra(&c)) {
+                Err(e) => println!("pc extra scenario could not run: {e}"),
+                Ok(o) => { println!("model ops: {}", o.model_ops.join(" ")); println!("impl: {}", o.obs.join(" "));
+                    for (i, h) in o.hidden.iter().enumerate() { println!("hidden[{i}]: {h}"); } }
+            }
+            return;
+        }
+        let c = parse(case);
+        match rt.block_on(exec(&c)) {
+            Err(e) => println!("pc scenario could not run: {e}"),
+            Ok(o) => { println!("model ops: {}", o.model_ops.join(" ")); println!("impl: {}", o.obs.join(" "));
+                for (i, h) in o.hidden.iter().enumerate() { println!("hidden[{i}]: {h}"); }
+                for (s, d) in o.fails { println!("ORACLE-FAIL {s} {d}"); } }
+        }
+    }
+}
+/// API ops racing with `receive()`: the `verif_sched` yield points park each thread at named points;
+/// a schedule (a string over {r, s}) says which thread runs up to its next point. Every schedule of
+/// the small programs is executed on the real `IceConn` with two OS threads.
+///  * correspondence: final full state vs the interleaving model `RtcModel.LatchRace` for the same schedule;
+///  * oracle (independent of the model): the outcome must be serializable — equal to running the two
+///    calls one after the other, in one of the two orders, on the real code.
+mod race {
+    use super::*;
+    use rustrtc::transports::ice::conn::verif_sched;
+    use std::cell::Cell;
+    use std::sync::{Condvar, Mutex as StdMutex};
+    use std::time::Duration;
+
+    #[derive(Default)]
+    struct St { paused: [Option<&'static str>; 2], go: [bool; 2], done: [bool; 2], holds: [bool; 2] }
+    struct Ctl { m: StdMutex<St>, cv: Condvar }
+    thread_local! { static TID: Cell<Option<usize>> = const { Cell::new(None) }; }
+
+    fn park(ctl: &Ctl, t: usize, name: &'static str) {
+        let mut g = ctl.m.lock().unwrap();
+        if name.ends_with(":unlocked") { g.holds[t] = false; }
+        g.paused[t] = Some(name);
+        ctl.cv.notify_all();
+        while !g.go[t] { g = ctl.cv.wait(g).unwrap(); }
+        g.go[t] = false;
+        g.paused[t] = None;
+        if name.ends_with(":before-lock") { g.holds[t] = true; }
+    }
+
+    #[derive(Clone, Debug, PartialEq)]
+    pub enum Api { Sig(u8, u16), Reset, Pair(u8, u16) }
+    pub struct RaceCase { pub setup: Case, pub pkt: (u8, u16, Vec<u8>), pub api: Api, pub sched: String }
+
+    fn api_text(a: &Api) -> String { match a { Api::Sig(i, p) => format!("sg,{i},{p}"), Api::Reset => "rs".into(), Api::Pair(i, p) => format!("pr,{i},{p}") } }
+    pub fn text(c: &RaceCase) -> String {
+        format!("race {} | p,{},{},{} | {} | {}", case_text(&c.setup), c.pkt.0, c.pkt.1, hex(&c.pkt.2), api_text(&c.api), c.sched)
+    }
+    pub fn parse(s: &str) -> RaceCase {
+        let parts: Vec<&str> = s.trim_start_matches("race ").split(" | ").collect();
+        let setup = parse_case(parts[0]);
+        let pk = match &parse_case(&format!("init,0,0,0,0 {}", parts[1])).ops[0] { Op::Pkt(i, p, b) => (*i, *p, b.clone()), _ => panic!() };
+        let api = match &parse_case(&format!("init,0,0,0,0 {}", parts[2])).ops[0] { Op::Sig(i, p) => Api::Sig(*i, *p), Op::Reset => Api::Reset, Op::Pair(i, p) => Api::Pair(*i, *p), _ => panic!() };
+        RaceCase { setup, pkt: pk, api, sched: parts[3].to_string() }
+    }
+
+    fn build(c: &Case) -> Arc<IceConn> {
+        let (_tx, rx) = watch::channel::<Option<IceSocketWrapper>>(None);
+        let conn = hook::new_with_rtcp(rx.clone(), rx, sa(c.init.0, c.init.1), if c.maxp == 0 { None } else { Some(c.maxp) });
+        let rt = tokio::runtime::Builder::new_current_thread().build().unwrap();
+        let mut mb = vec![];
+        for op in &c.ops { match op {
+            Op::Pkt(ip, port, b) => rt.block_on(conn.receive(Bytes::from(b.clone()), sa(*ip, *port), &mut mb)),
+            Op::Enable => conn.enable_latch_on_rtp(), Op::Reset => conn.reset_latch(),
+            Op::Sig(ip, p) => hook::set_remote_addr_from_signaling(&conn, sa(*ip, *p)),
+            Op::Pair(ip, p) => hook::set_remote_addr_from_selected_pair(&conn, sa(*ip, *p)),
+            Op::Ssrc(v) => conn.set_expected_ssrc(*v),
+            Op::Maxp(v) => conn.set_probation_max_packets(if *v == 0 { None } else { Some(*v) }),
+            Op::RtcpAddr(a) => conn.set_remote_rtcp_addr(a.map(|(i, p)| sa(i, p))),
+        } }
+        conn
+    }
+    fn do_api(conn: &IceConn, a: &Api) { match a {
+        Api::Sig(i, p) => hook::set_remote_addr_from_signaling(conn, sa(*i, *p)), Api::Reset => conn.reset_latch(),
+        Api::Pair(i, p) => hook::set_remote_addr_from_selected_pair(conn, sa(*i, *p)) } }
+    fn do_pkt(conn: &IceConn, pk: &(u8, u16, Vec<u8>)) {
+        let rt = tokio::runtime::Builder::new_current_thread().build().unwrap();
+        let mut mb = vec![];
+        rt.block_on(conn.receive(Bytes::from(pk.2.clone()), sa(pk.0, pk.1), &mut mb));
+    }
+    fn final_text(conn: &IceConn) -> String { observe(conn, "-").text(None).0 }
+
+    /// Runs the schedule; `Err` if a released thread neither reached a point nor finished in time.
+    pub fn exec(c: &RaceCase) -> Result<String, String> {
+        let conn = build(&c.setup);
+        let ctl = Arc::new(Ctl { m: StdMutex::new(St::default()), cv: Condvar::new() });
+        let ctl_h = ctl.clone();
+        verif_sched::set(Some(Arc::new(move |name: &'static str| { if let Some(t) = TID.with(|x| x.get()) { park(&ctl_h, t, name); } })));
+        let mut hs = vec![];
+        for t in 0..2 {
+            let (conn, ctl, pk, api) = (conn.clone(), ctl.clone(), c.pkt.clone(), c.api.clone());
+            hs.push(std::thread::spawn(move || {
+                TID.with(|x| x.set(Some(t)));
+                park(&ctl, t, "start");
+                if t == 0 { do_pkt(&conn, &pk) } else { do_api(&conn, &api) }
+                let mut g = ctl.m.lock().unwrap();
+                g.done[t] = true; g.holds[t] = false; g.paused[t] = None;
+                ctl.cv.notify_all();
+            }));
+        }
+        let wait_parked = |t: usize| -> Result<(), String> {
+            let mut g = ctl.m.lock().unwrap();
+            let deadline = std::time::Instant::now() + Duration::from_secs(3);
+            while !(g.done[t] || (g.paused[t].is_some() && !g.go[t])) {
+                let (g2, to) = ctl.cv.wait_timeout(g, Duration::from_millis(200)).unwrap();
+                g = g2;
+                if to.timed_out() && std::time::Instant::now() > deadline { return Err(format!("thread {t} neither parked nor finished")); }
+            }
+            Ok(())
+        };
+        let mut err = None;
+        for t in 0..2 { if let Err(e) = wait_parked(t) { err = Some(e); } }
+        let tail = "rsrsrsrsrsrsrsrsrsrs";
+        if err.is_none() {
+            for ch in c.sched.chars().chain(tail.chars()) {
+                let t = if ch == 'r' { 0 } else { 1 };
+                {
+                    let mut g = ctl.m.lock().unwrap();
+                    if g.done[t] { continue; }
+                    let at = g.paused[t].unwrap_or("");
+                    if at.ends_with(":before-lock") && g.holds[1 - t] { continue; } // would block on the probation mutex
+                    g.go[t] = true;
+                    ctl.cv.notify_all();
+                }
+                if let Err(e) = wait_parked(t) { err = Some(e); break; }
+            }
+        }
+        if err.is_some() { // release everything so the threads can end
+            let mut g = ctl.m.lock().unwrap(); g.go = [true, true]; ctl.cv.notify_all(); drop(g);
+            verif_sched::set(None);
+            std::thread::sleep(Duration::from_millis(50));
+            let mut g = ctl.m.lock().unwrap(); g.go = [true, true]; ctl.cv.notify_all(); drop(g);
+        }
+        verif_sched::set(None);
+        if let Some(e) = err { return Err(e); }
+        for h in hs { let _ = h.join(); }
+        Ok(final_text(&conn))
+    }
+    /// the two serial executions on the real code
+    fn serial(c: &RaceCase) -> [String; 2] {
+        let a = build(&c.setup); do_pkt(&a, &c.pkt); do_api(&a, &c.api);
+        let b = build(&c.setup); do_api(&b, &c.api); do_pkt(&b, &c.pkt);
+        [final_text(&a), final_text(&b)]
+    }
+
+    fn setups() -> Vec<(&'static str, Case, (u8, u16, Vec<u8>))> {
+        let pre = |maxp: u8, ops: Vec<Op>| Case { init: (9, 5009), maxp, tcp: false, ops: [vec![Op::Ssrc(SSRC), Op::Enable], ops].concat() };
+        let a = SRC[0]; let b = SRC[1];
+        vec![
+            ("commit-to-own-source(marker)", pre(6, vec![]), (a.0, a.1, rtp(true, 10, 10, SSRC))),
+            ("commit-to-earlier-candidate", pre(6, vec![Op::Pkt(b.0, b.1, rtp(false, 5, 5, SSRC)), Op::Pkt(a.0, a.1, rtp(false, 9, 9, SSRC))]), (a.0, a.1, rtp(true, 10, 10, SSRC))),
+            ("commit-by-window", pre(2, vec![Op::Pkt(b.0, b.1, rtp(false, 5, 5, SSRC))]), (a.0, a.1, rtp(false, 10, 10, SSRC))),
+            ("no-commit", pre(6, vec![Op::Pkt(b.0, b.1, rtp(false, 5, 5, SSRC))]), (a.0, a.1, rtp(false, 10, 10, SSRC))),
+            ("immediate-mode", pre(0, vec![]), (a.0, a.1, rtp(false, 10, 10, SSRC))),
+            ("already-latched", pre(6, vec![Op::Pkt(b.0, b.1, rtp(true, 5, 5, SSRC))]), (a.0, a.1, rtp(true, 10, 10, SSRC))),
+            ("packet-from-current-destination", pre(6, vec![Op::Sig(a.0, a.1)]), (a.0, a.1, rtp(true, 10, 10, SSRC))),
+        ]
+    }
+
+    pub fn run(run: &mut Run, args: &Args) {
+        let bits = if args.tier_thorough { 9 } else { 7 };
+        for (name, setup, pk) in setups() {
+            for api in [Api::Sig(SIG.0, SIG.1), Api::Reset, Api::Pair(PAIR.0, PAIR.1), Api::Pair(SRC[1].0, SRC[1].1)] {
+                for idx in 0..(1u32 << bits) {
+                    let sched: String = (0..bits).map(|k| if idx >> k & 1 == 0 { 'r' } else { 's' }).collect();
+                    let c = RaceCase { setup: Case { init: setup.init, maxp: setup.maxp, tcp: false, ops: setup.ops.clone() }, pkt: pk.clone(), api: api.clone(), sched };
+                    let t = text(&c);
+                    match exec(&c) {
+                        Err(e) => { run.fail("race:schedule-did-not-complete", &t, &e); }
+                        Ok(out) => {
+                            run.case("race", t.trim_start_matches("race "), &out, true);
+                            let ser = serial(&c);
+                            if out != ser[0] && out != ser[1] {
+                                run.fail(&format!("race:{}:outcome-not-serializable", match api { Api::Sig(..) => "signaling-retarget", Api::Reset => "reset", Api::Pair(..) => "pair-update" }),
+                                    &t, &format!("{name}: outcome {out}; receive-then-api {}; api-then-receive {}", ser[0], ser[1]));
+                            } else { run.count(if out == ser[0] && out == ser[1] { "race_outcome_same_in_both_orders" } else if out == ser[0] { "race_outcome_receive_first" } else { "race_outcome_api_first" }); }
+                        }
+                    }
+                    run.count("race_schedules");
+                }
+            }
+        }
+    }
+    pub fn replay(case: &str) {
+        let c = parse(case);
+        match exec(&c) { Err(e) => println!("schedule did not complete: {e}"), Ok(o) => { println!("impl: {o}"); let s = serial(&c);
+            println!("receive-then-api: {}\napi-then-receive: {}", s[0], s[1]);
+            if o != s[0] && o != s[1] { println!("ORACLE-FAIL race:outcome-not-serializable"); } } }
+    }
 }
